@@ -3,7 +3,7 @@
    All statements are unbounded: every byte list, every tree of any depth and width, every integer,
    every decimal magnitude.  Model: Engine/Model.v (tied to the code by harness/vh/c18.py). *)
 From PsdV Require Import Base.Prelude Engine.Model Engine.Corr
-  Engine.ProofsLex Engine.ProofsLeaf Engine.ProofsParse Engine.ProofsWrite Engine.ProofsFuel Engine.ProofsCount.
+  Engine.ProofsLex Engine.ProofsLeaf Engine.ProofsParse Engine.ProofsWrite Engine.ProofsFuel Engine.ProofsCount Engine.ProofsSpace Engine.Embedded.
 
 (* ------------------------------------------------------------------ strings *)
 (* 1. the three sequential un-escaping replaces undo the three sequential escaping replaces, for
@@ -42,10 +42,34 @@ Proof. exists [1;92]. split; [reflexivity|]. vm_compute. discriminate. Qed.
 Print Assumptions old_end_search_refuted.
 
 (* ------------------------------------------------------------------ numbers *)
-(* 4. Integer: "%d" then int() is the identity on every integer *)
+(* 4. Integer: "%d" then int() is the identity on every integer, of any size (far beyond int64) ... *)
 Theorem int_text_roundtrip : forall z, classify (int_bytes z) = KNum /\ int_of_bytes (int_bytes z) = z.
 Proof. intros z. split; [apply ProofsLeaf.int_classify|apply ProofsLeaf.int_roundtrip]. Qed.
 Print Assumptions int_text_roundtrip.
+(* ... and the Integer element is read back exactly when it has at most 4300 decimal digits: CPython's
+   sys.get_int_max_str_digits() makes int(token) (and "%d" % value) raise ValueError beyond that *)
+Theorem int_element_roundtrip : forall z, int_ok z = true -> leaf_of KNum (leaf_bytes (TInt z)) = Ok (TInt z).
+Proof. exact ProofsLeaf.int_read. Qed.
+Print Assumptions int_element_roundtrip.
+Example int_element_roundtrip_hyp : int_ok (2 ^ 63) = true /\ int_ok (- 2 ^ 200) = true /\ int_ok (- 10 ^ 100) = true.
+Proof. repeat split; vm_compute; reflexivity. Qed.
+(* the limit: every integer of magnitude >= 10^4300 is outside; its write() raises ValueError, and a token of more
+   than 4300 digits cannot be read (one of exactly 4300 can) *)
+Theorem int_limit : forall z, 10 ^ 4300 <= Z.abs z -> int_ok z = false.
+Proof. exact ProofsLeaf.int_ok_limit. Qed.
+Print Assumptions int_limit.
+Theorem int_limit_refuted :
+  (forall ly, write ly [([97], TInt (10 ^ 4300))] = Err ValueErr) /\
+  leaf_of KNum (repeat 49 4301) = Err ValueErr /\
+  parse ([47;97;32] ++ repeat 49 4301) = Err ValueErr /\
+  parse ([47;97;32] ++ repeat 49 4300) = Ok [([97], TInt (dval (repeat 49 4300)))].
+Proof.
+  split.
+  - intros ly. unfold write. cbn [wbig snd]. rewrite (ProofsLeaf.int_ok_limit (10 ^ 4300)); [reflexivity|].
+    change (Z.of_nat MAX_STR_DIGITS) with 4300. rewrite Z.abs_eq; [apply Z.le_refl|]. apply Z.pow_nonneg. discriminate.
+  - repeat split; vm_compute; reflexivity.
+Qed.
+Print Assumptions int_limit_refuted.
 
 (* 5. Float: the text made from '%.8f' (zeros stripped, "0." shortened to ".") is a decimal token and is read
       back to the same 8 places, for every sign and magnitude *)
@@ -56,6 +80,11 @@ Proof.
   intros neg mag H. split; [apply (ProofsLeaf.float_re_dec neg mag H)|apply (ProofsLeaf.float_roundtrip neg mag H)].
 Qed.
 Print Assumptions float_text_roundtrip.
+(* the statement has no upper bound on the magnitude: beyond 1e16, where '%.8f' prints many integer digits, the text is
+   still a decimal token read back to the same 8 places (which double has which text is CPython's: tested) *)
+Example float_text_roundtrip_big :
+  float_of_bytes (float_bytes (Fl true (17976931348623157 * 10 ^ 300) false)) = Fl true (17976931348623157 * 10 ^ 300) false.
+Proof. vm_compute. reflexivity. Qed.
 Example float_text_roundtrip_hyp :
   float_bytes (Fl true 50000000 false) = [45;46;53] /\ float_bytes (Fl false 10000000000000000000000000000 false) =
   [49;48;48;48;48;48;48;48;48;48;48;48;48;48;48;48;48;48;48;48;48;46;48].
@@ -129,6 +158,94 @@ Print Assumptions write_count_truthful.
 Example write_count_sample : write_count Indented sample = 238 /\ write_count Compact sample = 179.
 Proof. split; vm_compute; reflexivity. Qed.
 
+(* ------------------------------------------------------------------ text the library did not write *)
+(* 9c. ANY layout of a token sequence gives the same tokens: before each token any number of divider bytes
+       [ \n\t] -- none at all at the start of the data and after a string token -- and any trailing white space.
+       Tokens: string tokens with any content made of plain bytes and backslash pairs, any other clean token. *)
+Theorem tokenize_layout : forall ps prev trail,
+  ws_ok prev ps = true -> forallb ptok_ok (map snd ps) = true -> forallb is_div trail = true ->
+  tokenize (render ps ++ trail) = map tokof (map snd ps).
+Proof. exact ProofsSpace.tokenize_layout. Qed.
+Print Assumptions tokenize_layout.
+
+Theorem parse_whitespace_insensitive : forall ps ps' trail trail',
+  map snd ps = map snd ps' -> forallb ptok_ok (map snd ps) = true ->
+  ws_ok true ps = true -> ws_ok true ps' = true ->
+  forallb is_div trail = true -> forallb is_div trail' = true ->
+  tokenize (render ps ++ trail) = tokenize (render ps' ++ trail') /\
+  parse (render ps ++ trail) = parse (render ps' ++ trail').
+Proof. exact ProofsSpace.parse_whitespace_insensitive. Qed.
+Print Assumptions parse_whitespace_insensitive.
+
+(* 9d. hence the reader is correct on every layout of a well-formed tree, not only on the library's two: the tokens
+       of the tree, laid out in any way [ws_ok] allows, are read as the tree (with and without the container) *)
+Theorem parse_any_layout : forall d ps trail,
+  wf_tree (TDict d) = true -> map snd ps = ptoks (TDict d) -> ws_ok true ps = true ->
+  forallb is_div trail = true -> parse (render ps ++ trail) = Ok d.
+Proof. exact ProofsSpace.parse_any_layout. Qed.
+Print Assumptions parse_any_layout.
+Theorem parse_any_layout_bare : forall d ps trail,
+  wf_tree (TDict d) = true -> map snd ps = eptoks d -> ws_ok true ps = true ->
+  forallb is_div trail = true -> parse (render ps ++ trail) = Ok d.
+Proof. exact ProofsSpace.parse_any_layout_bare. Qed.
+Print Assumptions parse_any_layout_bare.
+(* e.g. the sample tree with "\n\t\t " before every token but nothing after a string, and "\n\n" at the end *)
+Definition sample_layout : layout_t :=
+  (fix go (prev : bool) (l : list ptok) : layout_t :=
+     match l with [] => [] | t :: r => ((if prev then [] else [10;9;9;32]), t) :: go (is_pstr t) r end) true (ptoks (TDict sample)).
+Example parse_any_layout_hyp :
+  map snd sample_layout = ptoks (TDict sample) /\ ws_ok true sample_layout = true /\
+  parse (render sample_layout ++ [10;10]) = Ok sample /\ existsb (fun p => is_nil (fst p)) (tl sample_layout) = true.
+Proof. repeat split; vm_compute; reflexivity. Qed.
+
+(* 9e. where a divider is REQUIRED: after every token that is not a string.  Two such tokens written without one are
+       read as ONE token (so [ws_ok] excludes exactly the layouts that change the token sequence) ... *)
+Theorem divider_required : forall a b rest,
+  clean a = true -> clean b = true -> starts_str (a ++ b) = false -> sep_start rest = true ->
+  tokenize (a ++ b ++ rest) = emit (a ++ b) (tokenize rest).
+Proof. exact ProofsSpace.divider_required. Qed.
+Print Assumptions divider_required.
+(* ... a number directly followed by a name, a name directly followed by a string: unknown tokens, ValueError;
+   a string directly followed by a name or a number (and preceded by nothing) is fine *)
+Theorem divider_required_refuted :
+  parse [47;97;32;53;47;98;32;49] = Err ValueErr /\                      (* "/a 5/b 1" *)
+  parse ([47;97] ++ [40;254;255;0;120;41]) = Err ValueErr /\             (* "/a(..x)"  *)
+  parse ([47;97;32] ++ [40;254;255;0;120;41] ++ [47;98;32] ++ [40;254;255;41] ++ [49]) =
+    Ok [([97], TStr [0;120]); ([98], TStr [])].                          (* "/a (..x)/b (..)1": the stray 1 is skipped *)
+Proof. repeat split; vm_compute; reflexivity. Qed.
+Print Assumptions divider_required_refuted.
+
+(* ------------------------------------------------------------------ the embedded case *)
+(* 9f. RawData.write with the EngineData OBJECT as value writes exactly what it would write for the object's bytes:
+       the length field is the count the object's write() returns, and that count is truthful (9b) *)
+Theorem raw_object_writes_as_bytes : forall t ly d bs, write ly d = Ok bs ->
+  raw_obj_w ly d = Descriptor.write_dval t (Descriptor.DRaw Descriptor.OS_tdta bs).
+Proof. exact Embedded.raw_object_writes_as_bytes. Qed.
+Print Assumptions raw_object_writes_as_bytes.
+
+(* 9g. TypeToolObjectSetting (modelled in Engine/Embedded.v on the descriptor / length-block model of Psd/): a block
+       whose text descriptor holds under "EngineData" the bytes written for a well-formed tree d re-reads to the same
+       block with the engine data parsed and exposed as exactly d, and what was re-read writes the same block bytes *)
+Theorem type_tool_engine_data_roundtrip : forall units t pad x d bs blk n rest,
+  Descriptor.wf_terms t = true -> wf_tysh units x = true ->
+  wf_tree (TDict d) = true -> write Indented d = Ok bs -> find_raw (text_items (ty_text x)) = Some bs ->
+  write_tysh t pad x = Ok (blk, n) ->
+  read_tysh units t (blk ++ rest) = Ok (x, Some d) /\
+  raw_obj_w Indented d = Descriptor.write_dval t (Descriptor.DRaw Descriptor.OS_tdta bs) /\
+  (forall x' e, read_tysh units t (blk ++ rest) = Ok (x', e) -> write_tysh t pad x' = Ok (blk, n)).
+Proof. exact Embedded.type_tool_engine_data_roundtrip. Qed.
+Print Assumptions type_tool_engine_data_roundtrip.
+
+(* ... and inside its tagged block (signature, key, length field, padding: Psd/Typed.v payload_block_rt) *)
+Theorem type_tool_block_roundtrip : forall units t v pad sg key x d bs blk n rest,
+  (pad = 1 \/ pad = 2 \/ pad = 4) -> Model.memz sg Model.model_tb_sigs = true ->
+  Descriptor.wf_terms t = true -> wf_tysh units x = true ->
+  wf_tree (TDict d) = true -> write Indented d = Ok bs -> find_raw (text_items (ty_text x)) = Some bs ->
+  Typed.write_payload_block v pad sg key (write_tysh t 4 x) = Ok (blk, n) ->
+  Typed.read_payload_block (read_tysh units t) v pad (blk ++ rest) = Ok (Some (sg, key, (x, Some d), rest)).
+Proof. exact Embedded.type_tool_block_roundtrip. Qed.
+Print Assumptions type_tool_block_roundtrip.
+
 (* 10. the fuel of the model's tokenizer and reader is always sufficient: OutOfFuel is never an outcome *)
 Theorem parse_never_out_of_fuel : forall data, parse data <> Err OutOfFuel.
 Proof. exact ProofsFuel.parse_total. Qed.
@@ -151,10 +268,14 @@ Proof.
           | vm_compute; reflexivity ].
 Qed.
 
-(* the writers never fail (no write() is reached with an argument it does not take) *)
-Theorem write_total : forall ly d, exists bs, write ly d = Ok bs.
+(* the writers fail only for an Integer beyond CPython's digit limit (no write() is reached with an argument it does
+   not take) *)
+Theorem write_total : forall ly d, wbig (TDict d) = false -> exists bs, write ly d = Ok bs.
 Proof. exact ProofsWrite.write_total. Qed.
 Print Assumptions write_total.
+Theorem write_fails_only_big : forall ly d e, write ly d = Err e -> e = ValueErr /\ wbig (TDict d) = true.
+Proof. exact ProofsWrite.write_fails_only_big. Qed.
+Print Assumptions write_fails_only_big.
 
 (* property names outside [A-Za-z0-9_]+ do not survive: "a b" becomes the key "a" and a stray token *)
 Theorem bad_name_refuted : exists d bs,
